@@ -11,6 +11,7 @@ func init() {
 	vfHarnesses["C17_densify"] = vfhC17Densify
 	vfHarnesses["C17_snap_dp0"] = vfhC17SnapDP0
 	vfHarnesses["C17_reverse"] = vfhC17Reverse
+	vfHarnesses["C17_densify_repeated"] = vfhC17DensifyRepeated
 }
 
 // Simplify on a LineString of 4 arbitrary finite points (distances are
@@ -107,5 +108,27 @@ func vfhC17Reverse() {
 	vfAssert(vfSameSeqBits(r.Reverse().Coordinates(), seq), "involution")
 	poly := NewPolygon([]LineString{NewLineString(vfSeqF("q", 4, ct))})
 	vfAssert(vfSameSeqBits(poly.Reverse().Reverse().ExteriorRing().Coordinates(), poly.ExteriorRing().Coordinates()), "Polygon.Reverse is an involution")
+	vfReach("end")
+}
+
+// Densify keeps every original vertex in order, also across a repeated
+// (zero-length) segment: LINESTRING Z(1 2 z0, 1 2 z1, 4 6 z2) with any d >= 5.
+func vfhC17DensifyRepeated() {
+	z0, z1, z2 := vfFloat64("z0"), vfFloat64("z1"), vfFloat64("z2")
+	d := vfFloat64("d")
+	vfAssume(vfAnd(vfFinite(d), d >= 5))
+	var fs []float64
+	switch vfInt("repeat-at", 0, 2) {
+	case 0:
+		fs = []float64{1, 2, z0, 1, 2, z1, 4, 6, z2}
+	case 1:
+		fs = []float64{1, 2, z0, 4, 6, z1, 4, 6, z2}
+	default:
+		fs = []float64{1, 2, z0, 4, 6, z1, 1, 2, z2}
+	}
+	in := NewSequence(fs, DimXYZ)
+	out := NewLineString(in).Densify(d).Coordinates()
+	vfAssert(out.Length() == 3, "no vertex is added (d is at least the segment length) and none is lost")
+	vfAssert(vfSameSeqBits(out, in), "every original vertex, in order, with its Z")
 	vfReach("end")
 }
